@@ -1297,6 +1297,7 @@ def _diff(ctx, live, fresh):
 
 def _reported(ctx, obj, M, cls, seen, rejected=None):
     """every reported accessor against the value that was set (the parameters a fresh object would be built from)"""
+    wrong = []
     if cls in SPECTRA:
         d = (M["max_wavelength"] - M["min_wavelength"]) / M["bins"]
         exp = [("min_wavelength", obj.min_wavelength, M["min_wavelength"], 0.0),
@@ -1315,6 +1316,8 @@ def _reported(ctx, obj, M, cls, seen, rejected=None):
         if ok:
             bad, _, _, _ = _cmp(ctx, wl, ref, 8 * np.spacing(ref), "reported")
             ok = not bad.any()
+        if not ok:
+            wrong.append("wavelengths")
         if not ok and "wavelengths" not in seen:
             seen.add("wavelengths")
             ctx.viol(("rejected:%s.%s:reported-parameter-changed:wavelengths" % rejected) if rejected else
@@ -1333,6 +1336,8 @@ def _reported(ctx, obj, M, cls, seen, rejected=None):
             exp.append(("get_polarization." + c, g_, w_, 1e-14))
     for name, got, want, tol in exp:
         bad, _, _, _ = _cmp(ctx, float(got), float(want), tol, "reported")
+        if bad.any():
+            wrong.append(name)
         if bad.any() and name not in seen:
             seen.add(name)
             base = name.split(".")[0]
@@ -1340,6 +1345,7 @@ def _reported(ctx, obj, M, cls, seen, rejected=None):
                      "reported:%s.%s:differs-from-set-value" % (_defcls(obj, base), name),
                      "a reported parameter differs from the value the object was given", accessor=name, got=float(got),
                      want=float(want))
+    return wrong
 
 
 def _same_arg_probes(cls, M):
@@ -1440,6 +1446,7 @@ def _run_history(case, ctx):
     prev = set()
     kinds = set()
     rejected_before = []
+    corrupting = []       # refused assignments after which the object's state or reported parameters had changed
     for step, (name, value) in enumerate([(None, None)] + [tuple(o) for o in ops]):
         setter = None
         rejected_now = None
@@ -1469,8 +1476,8 @@ def _run_history(case, ctx):
             who = (_defcls(live, setter), setter)
             if invalid is None and raised is not None:
                 # a legal assignment must work (as it would on a freshly constructed object)
-                if rejected_before:
-                    ctx.viol("rejected:%s.%s:later-legal-setter-raises" % rejected_before[-1],
+                if corrupting:
+                    ctx.viol("rejected:%s.%s:later-legal-setter-raises" % corrupting[-1],
                              "after an assignment was rejected, a later legal assignment raises although the same "
                              "assignment works on a freshly constructed object",
                              rejected=["%s.%s" % r for r in rejected_before], legal_setter="%s.%s" % who, value=value,
@@ -1559,8 +1566,11 @@ def _run_history(case, ctx):
                          "after this setter the live object's %s differs from freshly built objects'" % obs,
                          setter=setter, observable=obs, noop_assignment=was_noop,
                          **m_ld[obs])
+        if rejected_now and (_reported(ctx, live, M, cls, seen, rejected=rejected_now) or (stale - prev)):
+            corrupting.append(rejected_now)
+        elif not rejected_now:
+            _reported(ctx, live, M, cls, seen)
         prev = stale
-        _reported(ctx, live, M, cls, seen, rejected=rejected_now)
         if step == 0:
             _reported(ctx, objs[1], M, cls, seen)
     for k in kinds:
